@@ -35,6 +35,7 @@ from teaal.ir.iter_graph import IterationGraph
 from teaal.ir.metrics import Metrics
 from teaal.ir.node import Node
 from teaal.ir.program import Program
+from teaal import verif_hooks
 from teaal.ir.tensor import Tensor
 
 
@@ -536,6 +537,8 @@ class FlowGraph:
         # Get a topological sort
 
         self.sorted = list(nx.topological_sort(self.graph))
+        if verif_hooks.enabled():
+            self.sorted = verif_hooks.sort_hook(self.graph, self.sorted)
 
     def __hoist(self) -> None:
         """
